@@ -317,7 +317,7 @@ impl TOutputProtocol for TBinaryUnsafeOutputProtocol<&mut BytesMut> {
     fn write_i16(&mut self, i: i16) -> Result<(), ThriftException> {
         unsafe {
             let buf: &mut [u8; 2] = self
-                .trans
+                .buf
                 .get_unchecked_mut(self.index..self.index + 2)
                 .try_into()
                 .unwrap_unchecked();
@@ -331,7 +331,7 @@ impl TOutputProtocol for TBinaryUnsafeOutputProtocol<&mut BytesMut> {
     fn write_i32(&mut self, i: i32) -> Result<(), ThriftException> {
         unsafe {
             let buf: &mut [u8; 4] = self
-                .trans
+                .buf
                 .get_unchecked_mut(self.index..self.index + 4)
                 .try_into()
                 .unwrap_unchecked();
@@ -345,7 +345,7 @@ impl TOutputProtocol for TBinaryUnsafeOutputProtocol<&mut BytesMut> {
     fn write_i64(&mut self, i: i64) -> Result<(), ThriftException> {
         unsafe {
             let buf: &mut [u8; 8] = self
-                .trans
+                .buf
                 .get_unchecked_mut(self.index..self.index + 8)
                 .try_into()
                 .unwrap_unchecked();
@@ -359,7 +359,7 @@ impl TOutputProtocol for TBinaryUnsafeOutputProtocol<&mut BytesMut> {
     fn write_double(&mut self, d: f64) -> Result<(), ThriftException> {
         unsafe {
             let buf: &mut [u8; 8] = self
-                .trans
+                .buf
                 .get_unchecked_mut(self.index..self.index + 8)
                 .try_into()
                 .unwrap_unchecked();
